@@ -22,7 +22,7 @@ RULE = ('formulas over the operator grammar rendered from generated ASTs (exhaus
         'non-trivial = at least two operators and the reference value differs from the value of the same token list '
         'under at least one wrong grouping (flat left-to-right, right-associative, unary-sign-loosest), or a literal '
         'with a fraction or exponent; distinct = distinct (formula text, cell values) JSON')
-ASSUMPTIONS = ['arithmetic on text, ordering of mixed kinds and the text form of booleans/blanks/integral floats are outside the asserted domain',
+ASSUMPTIONS = ['arithmetic on text and ordering of mixed kinds are outside the asserted domain; text forms under & are asserted: TRUE / FALSE, the empty text for a blank, 15 significant digits for numbers (no exponent forms)',
                'floating-point results compared with relative tolerance 1e-12 (the product normalises to 15 digits around %)',
                'division by an expression whose reference value is 0 is skipped']
 
@@ -158,8 +158,6 @@ def reference(ast, values):
     if isinstance(v, (int, float)) and not isinstance(v, bool):
         if v != v or abs(v) >= 1e15:
             raise F.OutOfDomain('magnitude')
-    if text_of_computed_fraction(ast, cell_env(values)):
-        raise F.OutOfDomain('text form of a computed fraction')
     return v
 
 
